@@ -257,6 +257,10 @@ def spec_strategy(op, file_mode, salt, tqdm_first=False, sequential=False):
         'mapping': _pick('mapping', salt, ['Conductivity', 'LgResistivity']),
         'tol_gradient': _pick('tolg', salt, [None, 1e-2]),
         'relative': _pick('relative', salt, [False, True]),
+        # 'local': coordinates around the origin; 'utm_towed': the whole
+        # survey at UTM-like coordinates with the later sources a few metres
+        # from the first one (same depth, same heading), as for a towed source
+        'layout': _pick('layout', salt, ['local', 'utm_towed']),
         'order': _pick('order', salt, ['reversed', 'rotated', 'interleaved',
                                        'random']),
         'rot': st.integers(0, 7),
@@ -271,8 +275,11 @@ def _build(spec):
     rng = gen.rng_of(spec['seed'], 1000 + spec['salt'])
     nsrc, nfreq, nrec = spec['nsrc'], spec['nfreq'], spec['nrec']
 
+    towed = spec.get('layout', 'local') == 'utm_towed'
+    off = np.array([452000.0, 6551000.0, 0.0]) if towed else np.zeros(3)
     hx = np.ones(8)*100.0
-    grid = emg3d.TensorMesh([hx, hx, hx], origin=(-400, -400, -400))
+    grid = emg3d.TensorMesh([hx, hx, hx],
+                            origin=tuple(off + np.array([-400., -400, -400])))
     shape = grid.shape_cells
     cond = 10.0**rng.uniform(-0.5, 0.5, size=shape)
     condz = cond*10.0**rng.uniform(0.0, 0.5, size=shape)
@@ -287,6 +294,12 @@ def _build(spec):
         t = SRC_TYPES[int(rng.integers(0, 3))] if i else 'TxElectricPoint'
         xyz = rng.uniform(-200, 200, 3).round(1)
         az, el = rng.uniform(-180, 180), rng.uniform(-90, 90)
+        if towed and i:
+            t = src[0][0]
+            xyz = np.array(src[0][1][:3]) - off + np.array(
+                [3.0*i, 7.0*i, 0.0])
+            az, el = src[0][1][3], src[0][1][4]
+        xyz = xyz + off
         src.append((t, (float(xyz[0]), float(xyz[1]), float(xyz[2]),
                         float(round(az, 1)), float(round(el, 1)))))
     # receivers
@@ -299,6 +312,8 @@ def _build(spec):
         # outermost cell layer)
         lim = 50 if rel else 250
         xyz = rng.uniform(-lim, lim, 3).round(1)
+        if not rel:
+            xyz = xyz + off
         az, el = rng.uniform(-180, 180), rng.uniform(-90, 90)
         recs.append((t, (float(xyz[0]), float(xyz[1]), float(xyz[2]),
                          float(round(az, 1)), float(round(el, 1))), rel))
@@ -319,8 +334,8 @@ def _build(spec):
                      int(rng.choice([8, 8, 12]))]
             tgrids[(i, j)] = emg3d.TensorMesh(
                 [np.ones(n)*w for n in ncell],
-                origin=tuple(float(-n/2*w + s)
-                             for n, s in zip(ncell, shift)))
+                origin=tuple(float(-n/2*w + s + o)
+                             for n, s, o in zip(ncell, shift, off)))
 
     if spec['solver'] == 'plain':
         sopts = {'plain': True, 'tol': 1e-3}
@@ -379,6 +394,31 @@ def _simulation(P, spec, survey, workers, isrc=None, ifreq=None, **kw):
     return emg3d.Simulation(
         survey, model, max_workers=workers, gridding=spec['gridding'],
         receiver_interpolation='linear', solver_opts=sopts, verb=-1, **kw)
+
+
+def _child_sequential(args):
+    P, spec, tasks = args
+    sv = _survey(P)
+    sim = _simulation(P, spec, sv, 1, tqdm_opts=False)
+    sim.compute()
+    sn, fn = list(sv.sources), list(sv.frequencies)
+    return {(i, j): np.array(sim.get_efield(sn[i], fn[j]).field)
+            for (i, j) in tasks}
+
+
+def _sequential_in_child(P, spec, tasks):
+    import multiprocessing as mp
+    try:
+        with mp.get_context('fork').Pool(1) as pool:
+            return pool.apply(_child_sequential, ((P, spec, tasks),))
+    except Violation:
+        raise
+    except Exception as e:   # pragma: no cover (harness problem only)
+        from vp.framework import exception_to_violation
+        v = exception_to_violation(e)
+        if v is not None:
+            raise v from e
+        return None
 
 
 # --------------------------------------------------------------- compare
@@ -478,13 +518,26 @@ def _case(spec, rec, emg3d, _mp, tmpd):
     if _mp.tqdm is None:
         raise HarnessError("C11: tqdm is not importable (or left patched)")
 
+    # ---------------- (0) sequential run in a clean child process ---------
+    # Forked BEFORE this process has computed anything for this survey: the
+    # child runs the whole survey sequentially in submission order.  Its
+    # fields must equal the per-task references computed below (in this
+    # process, in reverse order).  Two different computation histories: a
+    # result that depends on per-process state left by the previous task
+    # (caches) cannot agree in both.
+    early = _sequential_in_child(P, spec, tasks)
+
     # ---------------- (ii) per-task references ---------------------------
     # direct solve_source, and a sequential one-source-one-frequency
     # simulation (forward now; back-propagation / jvec below, once the
     # observed data - derived from the reference responses - exist)
     ref_e, ref_syn, single = {}, {}, {}
     synref = np.zeros((nsrc, nrec, nfreq), dtype=complex)
-    for (i, j) in tasks:
+    # The references are computed in the REVERSE of the submission order: a
+    # result that depends on what the process computed just before (state
+    # leaking between consecutive tasks) then differs between the
+    # sequential simulation and its per-task references.
+    for (i, j) in reversed(tasks):
         sv = _survey(P, i, j, np.zeros((nsrc, nrec, nfreq), dtype=complex))
         s1 = _simulation(P, spec, sv, 1, i, j, **seq)
         s1.compute()
@@ -503,6 +556,14 @@ def _case(spec, rec, emg3d, _mp, tmpd):
                 f"from a direct solve_source: {_maxdiff(e1, ed.field)}")
         ref_e[(i, j)] = e1
         ref_syn[(i, j)] = np.array(s1.data.synthetic.data[0, :, 0])
+        if early is not None and not _same(early[(i, j)], e1):
+            raise Violation(
+                "efield_slot:differs:vs_task:mem:seq_clean_process",
+                f"task {(i, j)}: a sequential run of the survey in a freshly "
+                "forked process differs from the per-task reference computed "
+                "in another order (results depend on what the process "
+                f"computed before): {_maxdiff(early[(i, j)], e1)}; layout "
+                f"{spec.get('layout')}, gridding {spec['gridding']}")
         synref[i, :, j] = ref_syn[(i, j)]
         single[(i, j)] = (s1, sn, fn)
     for a in range(n):
@@ -639,6 +700,7 @@ def _case(spec, rec, emg3d, _mp, tmpd):
                     else "forced_order_partly")
     w = spec['workers']
     rec.cls(f"op={op}", f"path={path}", f"gridding={spec['gridding']}",
+            f"layout={spec.get('layout', 'local')}",
             f"solver={spec['solver']}", f"order={spec['order']}",
             f"workers={'1' if w == 1 else '2-4' if w < 5 else '5-8' if w < 9 else '9-16'}",
             f"workers{'<' if w < n else '>='}tasks", f"tasks={nsrc}x{nfreq}",
